@@ -2,6 +2,7 @@
 From Coq Require Import ZArith NArith List Bool.
 From GoCoap Require Import Base.Cases Base.Bytes Gen.ServerConsts NoResp.Model Dedup.Model Dedup.Spec Server.Model Server.Spec.
 From GoCoap Require Monitor.Model Server.KeepAlive.
+From GoCoap Require Import Server.Addr Server.TokenKey.
 Import ListNotations.
 Open Scope Z_scope.
 
@@ -37,6 +38,16 @@ Record cobs := CO { co_kind : ckind;
 Record kpeer := KP { kp_open : Z; kp_together : list kitem; kp_ans_together : list bool;
                      kp_alone : list kitem; kp_ans_alone : list bool }.
 
+(* one step of a RepRun *)
+Inductive rstep :=
+| RDgram (r : naddr) (d : list Z) (o_id : Z) (o_ans : bool)        (* the peer at r sends the request d; observed: the
+                                                                      connection the handler was given, answer received *)
+| RNewConn (r : naddr) (l : option naddr) (o_id : Z)               (* Server.NewConn(r[, l]); observed: the connection returned *)
+| RSrvReq (r : naddr) (l : option naddr) (o_id : Z) (o_ans o_stray : bool).
+                                                                   (* NewConn(r[, l]) and a request over it, which the peer
+                                                                      answers; observed: the connection, the answer came back
+                                                                      to the request, the answer reached the application *)
+
 Inductive case :=
 | UdpRun (maxsize : Z) (lst : addr) (dst : option ip) (peers : list peer_obs) (sched : list nat)
          (alive probe stopped : bool) (panics : Z)
@@ -64,7 +75,16 @@ Inductive case :=
 (* udp / tcp server with options.WithKeepAlive(mx, timeout) (Monitor period per) and several peers, on a virtual
    clock: the events in the order they were executed, and per peer what it saw in this run and in the run in which
    it was alone *)
-| KaRun (tcp : bool) (per mx : Z) (evs : list KeepAlive.kev) (peers : list kpeer) (alive stopped : bool) (panics : Z).
+| KaRun (tcp : bool) (per mx : Z) (evs : list KeepAlive.kev) (peers : list kpeer) (alive stopped : bool) (panics : Z)
+(* getConnKey on addresses given byte by byte (both representations of IPv4 addresses):
+   getConnKey(r1,l1) == getConnKey(r2,l2) ?  and the two fallback helpers on l1 *)
+| KeyRep (r1 l1 r2 l2 : naddr) (o_eq : bool) (o_fallback : bool) (o_wild_eq_l2 : bool)
+(* a live udp server bound to ONE address; peers send requests from IPv4 sockets, the application asks for the
+   connection of a peer by an address it built itself (4-byte or 16-byte IP, with or without the local address in
+   either form) and sends requests over it *)
+| RepRun (lst : naddr) (dst : option nip) (steps : list rstep) (o_news : Z)
+(* Token.Hash() of some tokens *)
+| TokKey (toks : list (list Z * Z)).
 
 (* ---- building the event list of a run from the send order ---- *)
 Fixpoint pop_nth {A} (i : nat) (qs : list (list A)) : option A * list (list A) :=
@@ -258,8 +278,73 @@ Definition ka_agrees (per mx : Z) (evs : list KeepAlive.kev) (peers : list kpeer
      && forallb (fun b => b) (kp_ans_together p) && forallb (fun b => b) (kp_ans_alone p))
     (combine (seq 0 (length peers)) peers).
 
+(* ---- addresses byte by byte ---- *)
+Definition ptext_eqb (a b : ptext) : bool :=
+  match a, b with
+  | TEmpty, TEmpty => true
+  | TV4 x, TV4 y | TV6 x, TV6 y | TBad x, TBad y => bytes_eqb x y
+  | _, _ => false
+  end.
+Definition atext_eqb (a b : ptext * Z * Z) : bool :=
+  ptext_eqb (fst (fst a)) (fst (fst b)) && (snd (fst a) =? snd (fst b)) && (snd a =? snd b).
+Definition key_c_eqb (a b : (ptext * Z * Z) * (ptext * Z * Z)) : bool := atext_eqb (fst a) (fst b) && atext_eqb (snd a) (snd b).
+Definition sp_of (a : naddr) : sp_addr := (n_ip a, n_port a, n_zone a).
+
+(* the peer table of Model.v on the abstracted addresses (Addr.abs_addr; AddrProofs.key_abs_faithful) *)
+Fixpoint rep_agrees (lst : naddr) (dst : option nip) (s : sstate cstate) (steps : list rstep) (news : Z) : option Z :=
+  match steps with
+  | [] => Some news
+  | st :: r =>
+      let e := match st with
+               | RDgram ra d _ _ => EDgram (abs_addr ra) (abs_addr lst) (option_map abs_ip dst) d
+               | RNewConn ra la _ | RSrvReq ra la _ _ _ => ENewConn (abs_addr ra) (option_map abs_addr la) (abs_addr lst)
+               end in
+      match cserver_step 65536 s e with
+      | SPanic => None
+      | SOk s1 outs =>
+          let n := blen (filter (fun x => match x with SNew _ _ => true | _ => false end) outs) in
+          let ok := match st with
+                    | RDgram _ _ oid oans =>
+                        oans && existsb (fun o => match o with SOut id _ (CHandled _ _ _) => id =? oid | _ => false end) outs
+                             && existsb (fun o => match o with SOut _ _ (CWire _) => true | _ => false end) outs
+                    | RNewConn _ _ oid =>
+                        (fold_left (fun acc x => match x with SConn _ id => id | SErrNewConn _ => -1 | _ => acc end) outs (-2) =? oid)
+                    | RSrvReq _ _ oid oans ostray =>
+                        (fold_left (fun acc x => match x with SConn _ id => id | SErrNewConn _ => -1 | _ => acc end) outs (-2) =? oid)
+                        && oans && negb ostray
+                    end in
+          if ok then rep_agrees lst dst s1 r (news + n) else None
+      end
+  end.
+Definition rep_valid (st : rstep) : bool :=
+  match st with
+  | RDgram r _ _ _ => valid_addr r
+  | RNewConn r l _ | RSrvReq r l _ _ _ => valid_addr r && match l with Some a => valid_addr a | None => true end
+  end.
+Definition rep_obs (st : rstep) : sp_addr * Z * Z :=
+  match st with
+  | RDgram r _ id ans => (sp_of r, id, if ans then 0 else 1)
+  | RNewConn r _ id => (sp_of r, id, 0)
+  | RSrvReq r _ id ans stray => (sp_of r, id, if stray then 2 else if ans then 0 else 1)
+  end.
+
+Definition disc_tokens (steps : list (dstep * addr * list Z)) : list (list Z) :=
+  flat_map (fun x => match fst (fst x) with
+                     | DS_Start t _ _ | DS_StartFail t _ _ | DS_End t | DS_Resp _ t _ _ _ => [t]
+                     | DS_Ping => [] end) steps.
+
 Definition agrees (c : case) : bool :=
   match c with
+  | KeyRep r1 l1 r2 l2 oe of ow =>
+      valid_addr r1 && valid_addr l1 && valid_addr r2 && valid_addr l2
+      && Bool.eqb (key_c_eqb (key_c r1 l1) (key_c r2 l2)) oe
+      && Bool.eqb (key_eqb (conn_key (abs_addr r1) (abs_addr l1)) (conn_key (abs_addr r2) (abs_addr l2))) oe
+      && Bool.eqb (can_fallback_c l1) of && Bool.eqb (can_fallback (abs_addr l1)) of
+      && Bool.eqb (atext_eqb (addr_text (to_wildcard_c l1)) (addr_text l2)) ow
+  | RepRun lst dst steps news =>
+      valid_addr lst && forallb rep_valid steps
+      && match rep_agrees lst dst (init_state 0) steps 0 with Some n => n =? news | None => false end
+  | TokKey toks => forallb (fun x => crc64 (fst x) =? snd x) toks
   | KaRun _ per mx evs peers alive stopped panics =>
       alive && stopped && (panics =? 0) && ka_agrees per mx evs peers
   | UdpRun maxsize lst dst peers sched alive probe stopped panics =>
@@ -284,7 +369,9 @@ Definition agrees (c : case) : bool :=
       && forallb (fun g => let '(xs, nc, ne, log) := g in
                    (nc =? 1) && (ne =? 0) && list_eqb hcall_eqb (map (fun x => hcall_of (fst x)) xs) log
                    && forallb (fun x => match snd x with Some o => tcp_resp_agrees (fst x) o | None => false end) xs) goods
-  | DiscRun lst dst steps => disc_agrees lst dst (init_state 0) steps
+  | DiscRun lst dst steps =>
+      (* the key function of the code tells the tokens of this run apart (TokenKeyProofs.hrun_refines applies) *)
+      told_apart_b crc64 (disc_tokens steps) && disc_agrees lst dst (init_state 0) steps
   | TlsRun dtls conns alive probe stopped panics =>
       (* the model (accepting never waits for a handshake) on the listener's order: every well-behaved
          connection is spawned, announced once and served as if it were alone, whatever the others do *)
@@ -328,6 +415,8 @@ Definition pclass (c : case) : N :=
            | Some (AccListenerClosed, _) | Some (AccDeadline, true) | Some (AccCanceled, true) => 0%N
            | _ => 9%N
            end
+  | KeyRep r1 l1 r2 l2 oe _ _ => key_pair_class (sp_of r1) (sp_of l1) (sp_of r2) (sp_of l2) oe
+  | RepRun _ _ steps _ => rep_class [] (map rep_obs steps)
   | _ => 0%N
   end.
 
